@@ -149,7 +149,10 @@ where
 	let mut skipped = 0;
 
 	while let Some(frame_or_err) = limited_body.frame().await {
-		let frame = frame_or_err.map_err(HttpError::Stream)?;
+		// A body without (or with a wrong) `Content-Length` is stopped by the length limit instead.
+		let frame = frame_or_err.map_err(|e| {
+			if e.is::<http_body_util::LengthLimitError>() { HttpError::TooLarge } else { HttpError::Stream(e) }
+		})?;
 		let Some(data) = frame.data_ref() else {
 			continue;
 		};
